@@ -111,6 +111,12 @@ thread_local! {
 }
 
 thread_local! {
+    /// the bindings of the arm being written back as they were when the arm was entered: a binding the arm did not change is not
+    /// written back (the arm may have assigned to the place itself, `*self = ..`, and the stale binding must not undo that)
+    pub static ARM_INIT: std::cell::RefCell<Option<Env>> = std::cell::RefCell::new(None);
+}
+
+thread_local! {
     /// variables that stand for a `&mut` reference into a place (the parameter of a closure mapped over `place.iter_mut()` /
     /// `place.chunks_mut(n)`): a match over such a variable binds into the data it refers to
     pub static MUT_REFS: std::cell::RefCell<std::collections::BTreeSet<String>> = std::cell::RefCell::new(std::collections::BTreeSet::new());
@@ -586,7 +592,11 @@ impl<'a> Evaluator<'a> {
         fn rebuild(pat: &syn::Pat, orig: &Val, arm_env: &Env) -> Val {
             use syn::Pat;
             match pat {
-                Pat::Ident(pi) if pi.subpat.is_none() && !is_upper_first(&pi.ident.to_string()) => arm_env.get(&pi.ident.to_string()).cloned().unwrap_or_else(|| orig.clone()),
+                Pat::Ident(pi) if pi.subpat.is_none() && !is_upper_first(&pi.ident.to_string()) => {
+                    let name = pi.ident.to_string();
+                    let unchanged = ARM_INIT.with(|i| match (&*i.borrow(), arm_env.get(&name)) { (Some(init), Some(now)) => init.get(&name) == Some(now), _ => false });
+                    if unchanged { orig.clone() } else { arm_env.get(&name).cloned().unwrap_or_else(|| orig.clone()) }
+                }
                 Pat::Reference(r) => rebuild(&r.pat, orig, arm_env),
                 Pat::Paren(p) => rebuild(&p.pat, orig, arm_env),
                 Pat::Type(t) => rebuild(&t.pat, orig, arm_env),
@@ -1102,9 +1112,12 @@ impl<'a> Evaluator<'a> {
                     let mut e2 = env.clone();
                     return match self.pat_match(&l.pat, &v, &mut e2) {
                         PatM::Yes => {
+                            let init = e2.clone();
                             let r = self.eval_block(&i.then_branch, &mut e2);
                             merge_back_shadow_safe(env, &e2, &l.pat);
+                            let prev = ARM_INIT.with(|a| a.borrow_mut().replace(init));
                             self.alias_writeback(&l.expr, &l.pat, &e2, env);
+                            ARM_INIT.with(|a| *a.borrow_mut() = prev);
                             r
                         }
                         PatM::No => match &i.else_branch {
@@ -1166,9 +1179,12 @@ impl<'a> Evaluator<'a> {
             Expr::Match(m) => {
                 let v = self.eval(&m.expr, env)?;
                 let (i, mut e2) = self.select_arm(m, &v, env)?;
+                let init = e2.clone();
                 let r = self.eval(&m.arms[i].body, &mut e2);
                 merge_back_shadow_safe(env, &e2, &m.arms[i].pat);
+                let prev = ARM_INIT.with(|a| a.borrow_mut().replace(init));
                 self.alias_writeback(&m.expr, &m.arms[i].pat, &e2, env);
+                ARM_INIT.with(|a| *a.borrow_mut() = prev);
                 r
             }
             Expr::Return(r) => {
